@@ -18,6 +18,7 @@ import (
 	"runtime"
 	"runtime/debug"
 	"strconv"
+	"strings"
 	"sync"
 	"sync/atomic"
 	"time"
@@ -107,11 +108,22 @@ func gcPressure(seed uint64, variant, idx int, thorough bool) gcResult {
 	}
 	var res gcResult
 	res.Variant = q.name()
-	P, C := rng.Range(2, 4), rng.Range(3, 8)
-	per := 90000
-	if thorough {
-		per = 300000
+	// ballast: a live, pointer-rich structure, so that every mark phase takes a while and the window between the
+	// scan of a consumer's stack and the scan of the ring slot it dequeues from is wide
+	ballast := make([]*gbox, 300000)
+	for i := range ballast {
+		ballast[i] = &gbox{id: uint64(i), p: &gobj{magic: 1}}
 	}
+	defer runtime.KeepAlive(ballast)
+	P, C := rng.Range(2, 4), rng.Range(6, 12)
+	per := 400000 // cap per producer; the run is bounded by wall-clock time
+	dur := 3 * time.Second
+	if thorough {
+		dur = 10 * time.Second
+	}
+	deadline := time.Now().Add(dur)
+	made := make([]int64, P) // objects enqueued by each producer
+	var prodDone int32
 	backlog := rng.Range(40000, 120000) // queued before the first consumer starts
 	res.Backlog = backlog
 	total := int64(P * per)
@@ -171,12 +183,14 @@ func gcPressure(seed uint64, variant, idx int, thorough bool) gcResult {
 		pw.Add(1)
 		go func(p int) {
 			defer pw.Done()
-			for s := 0; s < per; s++ {
+			defer atomic.AddInt32(&prodDone, 1)
+			for s := 0; s < per && time.Now().Before(deadline); s++ {
 				o := &gobj{magic: gMagic, prod: uint64(p), seq: uint64(s), sum: gsum(uint64(p), uint64(s))}
 				q.enq(o) // no other reference is kept
+				atomic.StoreInt64(&made[p], int64(s+1))
 				n := atomic.AddInt64(&produced, 1)
-				// keep a backlog: do not run more than ~3 rings ahead of the consumers
-				for n-atomic.LoadInt64(&consumed) > 200000 {
+				// keep a backlog, but bounded, so that the final drain stays short
+				for n-atomic.LoadInt64(&consumed) > int64(backlog)+30000 {
 					runtime.Gosched()
 				}
 			}
@@ -214,7 +228,7 @@ func gcPressure(seed uint64, variant, idx int, thorough bool) gcResult {
 		}
 	}
 	// wait for the backlog (objects allocated before the collections that will run during their dequeue)
-	for atomic.LoadInt64(&produced) < int64(backlog) {
+	for atomic.LoadInt64(&produced) < int64(backlog) && time.Now().Before(deadline) {
 		runtime.Gosched()
 	}
 	for c := 0; c < C; c++ {
@@ -225,12 +239,12 @@ func gcPressure(seed uint64, variant, idx int, thorough bool) gcResult {
 			for i := range last {
 				last[i] = -1
 			}
-			var held [48]*gobj // stack locals only: stores into them have no write barrier
-			var ids [48]uint64
+			var held [512]*gobj // stack locals only: stores into them have no write barrier
+			var ids [512]uint64
 			idle := 0
-			for atomic.LoadInt64(&consumed) < total && idle < 200000 {
+			for idle < 2000 || atomic.LoadInt32(&prodDone) < int32(P) {
 				n := 0
-				want := r.Range(1, 48)
+				want := r.Range(32, 512)
 				for n < want {
 					o, id, ok := q.deq()
 					if !ok {
@@ -248,7 +262,7 @@ func gcPressure(seed uint64, variant, idx int, thorough bool) gcResult {
 				atomic.AddInt64(&consumed, int64(n))
 				// hold across (up to) two collections, at most a few milliseconds
 				g0, t0 := atomic.LoadInt64(&gcCount), time.Now()
-				for atomic.LoadInt64(&gcCount) < g0+2 && time.Since(t0) < 4*time.Millisecond {
+				for atomic.LoadInt64(&gcCount) < g0+2 && time.Since(t0) < 3*time.Millisecond && time.Now().Before(deadline) {
 					if r.Chance(1, 4) {
 						time.Sleep(20 * time.Microsecond)
 					} else {
@@ -280,7 +294,7 @@ func gcPressure(seed uint64, variant, idx int, thorough bool) gcResult {
 		validate(o, id, 0, last)
 	}
 	for i := range seen {
-		if seen[i] == 0 {
+		if seen[i] == 0 && int64(i%per) < made[i/per] {
 			res.Lost++
 			if res.Lost == 1 {
 				example.CompareAndSwap(nil, fmt.Sprintf("(producer %d, seq %d) was enqueued and never dequeued", i/per, i%per))
@@ -344,14 +358,36 @@ func startGCChildren(o vhlib.Opts, n int) (wait func() []*gcJob) {
 					j.err = fmt.Errorf("child timed out")
 				}
 				j.out = so.b
-				j.stderr = string(se.b)
-				if len(j.stderr) > 1800 {
-					j.stderr = j.stderr[:1800]
-				}
+				j.stderr = clipCrash(string(se.b))
 			}(j)
 		}
 	}
 	return func() []*gcJob { wg.Wait(); return jobs }
+}
+
+// clipCrash keeps the head of a crash report and the part around the runtime's "fatal error" line.
+func clipCrash(s string) string {
+	head := s
+	if len(head) > 300 {
+		head = head[:300]
+	}
+	if i := strings.Index(s, "fatal error"); i >= 0 {
+		t := s[i:]
+		if len(t) > 1200 {
+			t = t[:1200]
+		}
+		if i > 300 {
+			return head + "\n...\n" + t
+		}
+		if len(s) > 1500 {
+			return s[:1500]
+		}
+		return s
+	}
+	if len(s) > 1500 {
+		return s[:1500]
+	}
+	return s
 }
 
 type safeBuf struct {
@@ -369,6 +405,7 @@ func (s *safeBuf) Write(p []byte) (int, error) {
 // reportGC turns the children's results into violations / notes.
 func reportGC(w *vhlib.Writer, o vhlib.Opts, jobs []*gcJob) {
 	var deq, gcs int64
+	var runs []string
 	for _, j := range jobs {
 		label := "gc-pressure/" + gcVariantNames[j.variant]
 		if j.err != nil {
@@ -382,6 +419,7 @@ func reportGC(w *vhlib.Writer, o vhlib.Opts, jobs []*gcJob) {
 			continue
 		}
 		deq += r.Dequeued
+		runs = append(runs, fmt.Sprintf("%s: %d objects, %d collections, backlog %d", r.Variant, r.Dequeued, r.GCs, r.Backlog))
 		gcs += r.GCs
 		if r.Corrupted > 0 {
 			w.Violation(label, "a value was dequeued that was never enqueued (object freed and reused while the consumer held it)", r)
@@ -392,4 +430,5 @@ func reportGC(w *vhlib.Writer, o vhlib.Opts, jobs []*gcJob) {
 	}
 	w.Notes["gc_pressure_objects_validated"] = deq
 	w.Notes["gc_pressure_collections"] = gcs
+	w.Notes["gc_pressure_runs"] = runs
 }
